@@ -36,7 +36,7 @@ def budget(tier):
 
 
 def strategy(tier):
-    return drv.case_strategy(tier, classes=("cms", "cms", "cms", "st"))
+    return drv.case_strategy(tier, classes=("cms", "cms", "cms", "st"), extra_ops=True)
 
 
 def exhaustive(tier):
